@@ -339,6 +339,13 @@ pub fn process<I: BufRead, O: Write>(
                     Some(string) => {
                         in_multiline_comments = false;
                         remaining = string;
+                        // A comment separates two words like a space does
+                        let is_word = |c: char| c.is_ascii_alphanumeric() || c == '_';
+                        if uncommented_buf.chars().last().map_or(false, is_word)
+                            && remaining.chars().next().map_or(false, is_word)
+                        {
+                            uncommented_buf.push(' ');
+                        }
                         if !remaining.is_empty() {
                             if remaining.eq("\n") {
                                 remaining = "";
